@@ -2970,6 +2970,32 @@ namespace bloch::compiler {
                              "fields cannot have type 'void'");
         }
 
+        // An array field sized by an expression ('qubit[N] r;'): the size is resolved here, as it is
+        // for a local declaration; left unresolved, the field was created with length 0.
+        if (auto arr = dynamic_cast<ArrayType*>(node.fieldType.get())) {
+            if (arr->sizeExpression) {
+                int line = arr->sizeExpression->line > 0 ? arr->sizeExpression->line : node.line;
+                int col =
+                    arr->sizeExpression->column > 0 ? arr->sizeExpression->column : node.column;
+                std::optional<int> size;
+                try {
+                    size = evaluateConstInt(arr->sizeExpression.get());
+                } catch (const BlochError&) {
+                    size = std::nullopt;
+                }
+                if (!size) {
+                    throw BlochError(ErrorCategory::Semantic, line, col,
+                                     "the size of an array field must be an integer literal (no "
+                                     "named constant is in scope in a field declaration)");
+                }
+                if (*size < 0) {
+                    throw BlochError(ErrorCategory::Semantic, line, col,
+                                     "array size must be non-negative");
+                }
+                arr->size = *size;
+            }
+        }
+
         bool savedStatic = m_inStaticContext;
         m_inStaticContext = node.isStatic;
         if (node.isFinal && node.isStatic && !node.initializer) {
